@@ -106,6 +106,13 @@ func zzH_C07_strmap() {
 		}
 		zzAssert(m.LoadFromSlice(kk2, vv2) == nil, "reload failed")
 		zzCheckIntMap(m, kk2, vv2, probe, "after reload")
+		// shrink the same instance to empty: every key is absent again
+		zzAssert(m.LoadFromSlice(nil, nil) == nil, "reload with no pairs failed")
+		zzCheckIntMap(m, nil, nil, probe, "after empty reload")
+		if n > 0 {
+			g, ok := m.Get(kk[0])
+			zzAssert(zzAnd(!ok, g == 0), "a key loaded earlier is still present after an empty reload")
+		}
 		zzReach("reloaded")
 	}
 	if mode == 3 {
@@ -185,6 +192,12 @@ func zzH_C07_str2str() {
 		}
 		zzAssert(sm.LoadFromSlice(kk2, vv2) == nil, "reload failed")
 		check(kk2, vv2)
+		zzAssert(sm.LoadFromSlice(nil, nil) == nil, "reload with no pairs failed")
+		check(nil, nil)
+		if n > 0 {
+			g, ok := sm.Get(kk[0])
+			zzAssert(zzAnd(!ok, len(g) == 0), "a key loaded earlier is still present after an empty reload (Str2Str)")
+		}
 		zzReach("reloaded")
 	}
 }
